@@ -9,6 +9,7 @@ import PasfmtModel.Proofs.RulesSim
 import PasfmtModel.Proofs.ReconProps
 import PasfmtModel.Model.Mls
 import PasfmtModel.Proofs.RulesIdem
+import PasfmtModel.Proofs.SpacingIdem
 
 namespace Pasfmt.C03
 
@@ -79,5 +80,10 @@ theorem directive_rule_idem (c c' : Bytes) (h : formatCompilerDirective c = some
 /-- the comment formatter as a whole is a fixpoint after one application (ignored tokens included) -/
 theorem comment_formatter_idem (U : Bytes → Bool) (ft : FT) :
     commentFormatter U (commentFormatter U ft) = commentFormatter U ft := commentFormatter_idem U ft
+
+/-- `TokenSpacing` is a fixpoint on its own result: on tokens that carry the spacing it computed it
+    computes the same spacing again, for every sequence of kinds and every original spacing -/
+theorem token_spacing_idem (l : List (Kind × Nat)) :
+    spacingResult (respace l (spacingResult l)) = spacingResult l := spacingResult_idem l
 
 end Pasfmt.C03
